@@ -284,12 +284,17 @@ class NamedModel(Cacheable):
     one header row (column labels) and no header column. The REAL ScopedNameRefCache computes the name scopes."""
     node_to_ref = _NumbersModel.node_to_ref
 
-    def __init__(self, names, labels, rows=False):
+    def __init__(self, names, labels, rows=False, deep=False):
         from numbers_parser.xrefs import ScopedNameRefCache
         self.names = names                    # table id -> table name
         self.rows = rows                      # True: the labels are row labels (one header column, no header row)
-        if rows:
+        self.deep = deep                      # True: two header rows (columns): group headings Y / Z first, the labels last
+        if rows and deep:
+            self._table_data = {t: [[HCell("Y"), HCell(labels[t][0]), HCell("1")], [HCell("Z"), HCell(labels[t][1]), HCell("2")]] for t in (7, 8, 9)}
+        elif rows:
             self._table_data = {t: [[HCell(labels[t][0]), HCell("1")], [HCell(labels[t][1]), HCell("2")]] for t in (7, 8, 9)}
+        elif deep:
+            self._table_data = {t: [[HCell("Y"), HCell("Z")], [HCell(labels[t][0]), HCell(labels[t][1])], [HCell("1"), HCell("2")]] for t in (7, 8, 9)}
         else:
             self._table_data = {t: [[HCell(labels[t][0]), HCell(labels[t][1])], [HCell("1"), HCell("2")]] for t in (7, 8, 9)}
         self.name_ref_cache = ScopedNameRefCache(self)
@@ -320,26 +325,26 @@ class NamedModel(Cacheable):
         return uuid
 
     def num_header_rows(self, table_id):
-        return 0 if self.rows else 1
+        return 0 if self.rows else (2 if self.deep else 1)
 
     def num_header_cols(self, table_id):
-        return 1 if self.rows else 0
+        return (2 if self.deep else 1) if self.rows else 0
 
     def number_of_rows(self, table_id):
-        return 2
+        return 3 if (self.deep and not self.rows) else 2
 
     def number_of_columns(self, table_id):
-        return 2
+        return 3 if (self.deep and self.rows) else 2
 
 
-def h09c_named(l70, l71, l80, l81, l90, l91, n8, n9, target, tcol, absolute, rows):
+def h09c_named(l70, l71, l80, l81, l90, l91, n8, n9, target, tcol, absolute, rows, deep=False):
     """a whole-column reference into another table is printed by header label when the label is unique in its table, and
     qualified with just enough of table / sheet name that - read against the document's own labels and names, narrower
     scopes shadowing wider ones - exactly one column matches: the stored one"""
     labels = {7: [l70, l71], 8: [l80, l81], 9: [l90, l91]}
     names = {7: "H", 8: "T" + n8, 9: "T" + n9}
     sheet_of = {7: 0, 8: 0, 9: 1}
-    m = NamedModel(names, labels, rows)
+    m = NamedModel(names, labels, rows, deep)
     if rows:
         node = Node(AST_row=Node(row=tcol, absolute=absolute), NOFIELD_AST_column=Node(column=0, absolute=False),
                     AST_cross_table_reference_extra_info=Node(table_id=target))
@@ -489,8 +494,9 @@ HARNESSES = [
     Harness("H09c", h09c_named,
             dict(l70=StrDom(1, LABELS), l71=StrDom(1, LABELS), l80=StrDom(1, LABELS), l81=StrDom(1, LABELS), l90=StrDom(1, LABELS),
                  l91=StrDom(1, LABELS), n8=StrDom(1, [(120, 121)]), n9=StrDom(1, [(120, 121)]), target=Cases([8, 9]), tcol=Cases([0, 1]),
-                 absolute=BoolDom(), rows=Cases([False, True])),
-            bounds="3 tables (host + one on the same sheet + one on another sheet) with 2 labelled columns (or 2 labelled rows) each; the six labels are "
+                 absolute=BoolDom(), rows=Cases([False, True]), deep=Cases([False, True])),
+            bounds="3 tables (host + one on the same sheet + one on another sheet) with 2 labelled columns (or 2 labelled rows) each, one header "
+                   "row / column or two (group headings above the labels); the six labels are "
                    "symbolic characters a..h (every equality pattern: unique, duplicated within a table, a sheet, the document), the two "
                    "target tables' names equal or not; target column and absolute flag symbolic",
             stubs=["model stub: table data = header cells with a formatted_value; the real ScopedNameRefCache / CellRange compute scopes "
